@@ -141,6 +141,11 @@ def build_and_check(acc, fn, n, m, be, hkind, square=False, values='all', gen_mo
                 c, ops = arith.saturated_host(k, wide=True)
             elif hkind == 'DEC':
                 c, ops = arith.decoy_host(k)
+            elif isinstance(hkind, tuple):  # ('REP', circuit, operand labels) prepared by the caller
+                _, c, ops = hkind
+                hkind = 'REP:' + ','.join(ops)
+                case['host'] = hkind
+                feats['host'] = 'REP'
             else:  # folded host
                 from vmc.props.c07 import folded_host
 
@@ -321,7 +326,7 @@ def plan(tier):
 
 def describe(tier):
     return {
-        'rule': 'SATW host for n+m<=4 / squares n<=4: a host that already holds every two-operand gate over every ordered pair of operand bits and n-ary decoys containing such a pair, and a DEC host with the decoys only; small: every width pair (n,m), n+m<=W x 7 multiplier entry points (add_mul, Karatsuba with efficient sum, alter, Dadda, '
+        'rule': 'REP hosts for n+m<=4 / squares n<=3: operand bit lists drawn with repeats from three inputs and the two constant gates (every such list); SATW host for n+m<=4 / squares n<=4: a host that already holds every two-operand gate over every ordered pair of operand bits and n-ary decoys containing such a pair, and a DEC host with the decoys only; small: every width pair (n,m), n+m<=W x 7 multiplier entry points (add_mul, Karatsuba with efficient sum, alter, Dadda, '
         'Wallace, 2^k-1, plain Karatsuba) x endianness x hosts (H0 inputs, H1 non-input operands) + generate_mul for the 6 modes, ALL '
         'operand values; for n+m<=7 also two calls reusing the same operand list objects and one with the same list as both operands; square: add_square/add_square_pow2_m1/generate_square likewise; rec: Karatsuba-recursion widths x short '
         'second operand, ALL operand values (2^(n+m) rows in slices of 2^18); full/fullsq: recursion inside recursion, the squarer split, and the other five entry points at widths 24..40 (column heights >= 25) '
@@ -369,6 +374,12 @@ def run_task(task, acc):
             for be in (False, True):
                 for h in ('H0', 'H1') + (('SATW', 'DEC') if n + m <= 4 else ()):
                     build_and_check(acc, fn, n, m, be, h)
+        if n + m <= 4:
+            # operand bits listed with repeats and constant gates among them (sign-extended / shifted operands)
+            for fn in MUL_FNS:
+                for be in (False, True):
+                    for tag, c_, ops_ in arith.repeated_operand_hosts(n, m):
+                        build_and_check(acc, fn, n, m, be, ('REP', c_, ops_))
         for mode in MODES:
             for be in (False, True):
                 build_and_check(acc, 'generate_mul', n, m, be, 'gen', gen_mode=mode)
@@ -379,6 +390,9 @@ def run_task(task, acc):
             for be in (False, True):
                 for h in ('H0', 'H1') + (('SATW', 'DEC') if n <= 4 else ()):
                     build_and_check(acc, fn, n, n, be, h, square=True)
+                if n <= 3:
+                    for tag, c_, ops_ in arith.repeated_operand_hosts(n):
+                        build_and_check(acc, fn, n, n, be, ('REP', c_, ops_), square=True)
         for mode in ('DEFAULT', 'POW2_M1'):
             for be in (False, True):
                 build_and_check(acc, 'generate_square', n, n, be, 'gen', square=True, gen_mode=mode)
